@@ -186,3 +186,5 @@ def run(ctx):
     # destination position must be put back where it was (same rule instances as C09/seek-targets and C09/save-restore)
     c09.rule_seek_targets(ctx, R="C10/append-position")
     c09.rule_save_restore(ctx, R="C10/append-position-restore")
+    # ... and a failed write/seek aborts the request: carrying on after one would append at an unknown position
+    c09.rule_dest_errors_abort(ctx, R="C10/dest-errors-abort")
